@@ -561,13 +561,13 @@ PROPS["C11"] = {
             "datagram unread in a socket; one history in ten starts with a connection attempt waiting at an acceptor that then gives the endpoint up "
             "and binds another. Jobs 'exh-*' enumerate every history of exactly N steps over 7 operations x {acceptor, tcp socket, udp socket(, udp "
             "socket)} on a dual-stack node with probes at the end; 'random' draws histories of 4-64 steps with probes every 3-8 steps; 'wrap' "
-            "(thorough) performs 64-68 k port-0 binds with ports held around 2000 and 65530 to cross the 65534 -> 2000 wrap. Non-trivial = a binding was "
+            "performs 64-68 k port-0 binds with ports held around 2000 and 65530 to cross the 65534 -> 2000 wrap. Non-trivial = a binding was "
             "released or a bind was refused with address_in_use; distinct = distinct step traces.",
     "jobs": [
         {"name": "exh-4slots", "engine": "registry", "mode": "exh", "args": {"steps": T(3, 4), "slots": 4}},
         {"name": "exh-3slots", "engine": "registry", "mode": "exh", "args": {"steps": T(4, 5), "slots": 3}},
         {"name": "random", "engine": "registry", "mode": "random", "args": {"n": T(40000, 400000)}},
-        {"name": "wrap", "engine": "registry", "mode": "wrap", "tiers": ("thorough",), "args": {"n": 12}},
+        {"name": "wrap", "engine": "registry", "mode": "wrap", "args": {"n": T(4, 12)}},
     ],
     "require": {
         "quick": {"binds_rejected_address_in_use": 4000, "rebinds_of_released_endpoint": 5000, "moves_of_bound_socket": 20000,
@@ -576,58 +576,7 @@ PROPS["C11"] = {
                   "ephemeral_binds_stepping_over_held_port": 5000, "binds_with_several_applicable_errors": 5000,
                   "tcp_probes_answered_by_holder": 8000, "tcp_probes_refused": 400000, "udp_probes_delivered_to_holder": 50000,
                   "held_endpoints_refused_to_fresh_socket": 150000, "free_endpoints_bound_by_sweep": 800000,
-                  "histories_with_attempt_waiting_at_rebound_acceptor": 2000, "waiting_datagrams_read_from_holder": 1500},
-        "thorough": {"binds_rejected_address_in_use": 50000, "rebinds_of_released_endpoint": 80000, "moves_of_bound_socket": 300000,
-                     "tcp_probes_answered_by_holder": 80000, "wrap_cases_that_wrapped": 10, "ephemeral_binds": 1000000},
-    },
-    "assumptions": ["routes contain one queue (1 ms): with hop-less routes the library delivers the SYN+ACK inside async_connect (asserts)",
-                    "binding an already bound, still open socket a second time is not generated (API misuse)",
-                    "objects are moved only while no operation is outstanding on them; move assignment is never used",
-                    "an open, unbound socket never connects to a target of the other address family; unbound v6 UDP sockets never send"],
-    "timeout": {"quick": 900, "thorough": 3600},
-}
-
-PROPS["C11"] = {
-    "level": "exploration",
-    "claim": {
-        "technique": "runtime monitoring: reference registry {proto -> endpoint -> socket} + per-socket {open, family, binding, listening} stepped "
-                     "with every operation of a generated history on the real library (ASan+UBSan build); connectivity probes from a separate node; "
-                     "bounded-exhaustive + random histories",
-        "text": "After every step of a history of open/bind/listen/connect/send_to/close/re-open/move/destroy operations the error code (must be one "
-                "of the applicable errors; no precedence demanded), is_open() and local_endpoint() of every socket are compared with the reference; "
-                "port 0 must yield a port >= 1024 that the reference says is free. Every few steps throw-away clients connect / send a datagram to "
-                "every endpoint the reference knows (answered by exactly the holder; TCP only by a listening acceptor) and to endpoints it believes "
-                "free (refused / reach nobody), fresh sockets must be able to bind every sampled free endpoint and must get address_in_use on every "
-                "held one, and every accepted connection / delivered datagram must have been addressed to what the receiving socket holds now. "
-                "Holds on the histories explored.",
-        "note": "Trusts the reference model in harness/e_registry.cpp. Binding a bound open socket twice is excluded as misuse; objects are moved only "
-                "while no operation is outstanding on them; move assignment is not used (declared, not defined).",
-        "ref": "DESIGN.md 3/C11",
-    },
-    "rule": "histories over 2-5 (+ accepted) TCP sockets, acceptors and UDP sockets on 1-2 nodes under test (address sets {v4}, {v4,v6}, {v6,v4,v4,v6}, "
-            "{v4,v4}, {v6}, {v4,v4,v6}) plus a probe node: open(v4|v6) incl. re-open, bind(explicit | wildcard v4/v6 | port 0 | privileged | foreign | "
-            "wrong family | an endpoint somebody holds or just gave up | a port the ephemeral counter is about to reach), listen, async_connect "
-            "(implicit open/bind; judged at once, left in flight, or delivered but not accepted), send_to (implicit bind), close()/close(ec), "
-            "move-construct (source kept or destroyed), destroy, re-create, feeding an acceptor (the accepted socket joins the history), leaving a "
-            "datagram unread in a socket; one history in ten starts with a connection attempt waiting at an acceptor that then gives the endpoint up "
-            "and binds another. Jobs 'exh-*' enumerate every history of exactly N steps over 7 operations x {acceptor, tcp socket, udp socket(, udp "
-            "socket)} on a dual-stack node with probes at the end; 'random' draws histories of 4-64 steps with probes every 3-8 steps; 'wrap' "
-            "(thorough) performs 64-68 k port-0 binds with ports held around 2000 and 65530 to cross the 65534 -> 2000 wrap. Non-trivial = a binding was "
-            "released or a bind was refused with address_in_use; distinct = distinct step traces.",
-    "jobs": [
-        {"name": "exh-4slots", "engine": "registry", "mode": "exh", "args": {"steps": T(3, 4), "slots": 4}},
-        {"name": "exh-3slots", "engine": "registry", "mode": "exh", "args": {"steps": T(4, 5), "slots": 3}},
-        {"name": "random", "engine": "registry", "mode": "random", "args": {"n": T(40000, 400000)}},
-        {"name": "wrap", "engine": "registry", "mode": "wrap", "tiers": ("thorough",), "args": {"n": 12}},
-    ],
-    "require": {
-        "quick": {"binds_rejected_address_in_use": 4000, "rebinds_of_released_endpoint": 5000, "moves_of_bound_socket": 20000,
-                  "closes_of_bound_socket": 25000, "destroys_of_bound_socket": 15000, "reopens_of_bound_socket": 15000,
-                  "closes_of_accepted_socket": 3000, "accepted_sockets_entering_history": 1200, "same_endpoint_held_in_tcp_and_udp": 6000,
-                  "ephemeral_binds_stepping_over_held_port": 5000, "binds_with_several_applicable_errors": 5000,
-                  "tcp_probes_answered_by_holder": 8000, "tcp_probes_refused": 400000, "udp_probes_delivered_to_holder": 50000,
-                  "held_endpoints_refused_to_fresh_socket": 150000, "free_endpoints_bound_by_sweep": 800000,
-                  "histories_with_attempt_waiting_at_rebound_acceptor": 2000, "waiting_datagrams_read_from_holder": 1500},
+                  "histories_with_attempt_waiting_at_rebound_acceptor": 2000, "waiting_datagrams_read_from_holder": 1500, "wrap_cases_that_wrapped": 3},
         "thorough": {"binds_rejected_address_in_use": 50000, "rebinds_of_released_endpoint": 80000, "moves_of_bound_socket": 300000,
                      "tcp_probes_answered_by_holder": 80000, "wrap_cases_that_wrapped": 10, "ephemeral_binds": 1000000},
     },
@@ -645,3 +594,14 @@ PROPS["C04"]["jobs"] += [
 
 PROPS["C11"]["jobs"].append({"name": "binding-epochs-over-udp-traffic", "engine": "udp", "prop": "C08", "args": {"n": T(1200, 40000)}})
 PROPS["C13"]["jobs"].append({"name": "mtu-through-nat", "engine": "tcp", "prop": "C20", "args": {"n": T(600, 20000)}})
+# bulk TCP with the connector behind a NAT and tail-dropping queues behind the NAT hop: a connection through a NAT has to
+# keep working when its segments are dropped and re-sent (stalls are reported under C13 as tcp-through-nat-stalls:*)
+PROPS["C13"]["jobs"].append({"name": "progress-through-nat", "engine": "tcp", "prop": "C06", "args": {"n": T(400, 8000), "nat": T(1, 1)}})
+PROPS["C13"]["require"]["quick"]["cases_with_queue_drop_and_connector_behind_nat"] = 80
+PROPS["C07"]["require"]["quick"]["reaccepts_into_socket_with_established_connection"] = 150
+PROPS["C17"]["require"]["quick"]["udp_forwards_verified_target_on_client_address"] = 1200
+PROPS["C17"]["require"]["quick"]["udp_replies_verified_target_on_client_address"] = 800
+PROPS["C16"]["require"]["quick"]["responses_verified_range-out-of-bounds"] = 3000
+PROPS["C19"]["require"]["quick"]["tcp_sockets_previously_opened_as_v6"] = 300
+PROPS["C19"]["require"]["quick"]["tcp_sockets_moved_in_mid_stream"] = 500
+PROPS["C20"]["require"]["quick"]["unrelated_socket_options_set"] = 1000
